@@ -17,12 +17,17 @@ KB = 1 << 62
 VB = 1000
 
 
+_INPUTS = []
+
+
 def build(HashTable, c, p):
     kd = p.get("kdtype", "int64")
     keys = arr(c["keys"], kd)
     kw = {} if c["mod"] is None else {"mod": c["mod"]}
     if p["state"] == "array":
-        return HashTable(keys, common.typed(c["vals"], p.get("vdtype", "int64")), **kw)
+        vals_in = common.typed(c["vals"], p.get("vdtype", "int64"))
+        _INPUTS[:] = [keys, vals_in]
+        return HashTable(keys, vals_in, **kw)
     t = HashTable(keys, pyint(c["vals"][0]), value_dtype=int, **kw)
     if p["state"] == "filled":
         t[keys[:1]] = t[keys[:1]]          # first write materialises the scalar
@@ -80,6 +85,8 @@ def run_op(c, p):
     elif op == "items":
         its = list(t.items())
         res = (arr([k for k, _ in its], kd), arr([v for _, v in its], "int64"))
+    if p.get("inputs") and p["state"] == "array":
+        return res, t[keys], _INPUTS[0], _INPUTS[1]          # the arrays handed to the constructor still hold what the caller put there
     return res, t[keys]
 
 
@@ -156,8 +163,11 @@ def sym(E, p, kf):
         if op in ("getv", "setv"):
             return dict(goal=z3.Not(z3.And(*present)) if present else False, got=got, case=case)
         return dict(goal=False, got=got, case=case)
-    res, after = got["items"]
+    res, after = got["items"][0], got["items"][1]
     conds = []
+    if len(got["items"]) == 4:
+        conds.append(specs.obs_goal(got["items"][2], dict(k="array", flat=list(keys), shape=[n], dtype="*")))
+        conds.append(specs.obs_goal(got["items"][3], dict(k="array", flat=list(vals), shape=[n], dtype="*")))
     if op in ("getv", "setv"):
         conds += present
     final = [val_of(i) for i in range(n)]
@@ -269,7 +279,10 @@ def conc(case):
             res = r["items"][0] if ok else dict(k="scalar", val="items differ from the dict", dtype="*")
     if op == "hs_contains":
         return got, dict(k="tuple", items=[res, {"k": "none"}]), {"dtype_matters": False}
-    return got, dict(k="tuple", items=[res, A([d[k] for k in keys], [n], "*")]), {"dtype_matters": False}
+    items = [res, A([d[k] for k in keys], [n], "*")]
+    if p.get("inputs") and p["state"] == "array":
+        items += [A(list(keys), [n], "*"), A(list(vals), [n], "*")]
+    return got, dict(k="tuple", items=items), {"dtype_matters": False}
 
 
 def jobs(tier, seed):
@@ -281,6 +294,8 @@ def jobs(tier, seed):
             out.append(dict(base, op=op, state=state))
         out.append(dict(base, op="setv", state=state, vvec=True))
     out.append(dict(base, op="getv", state="array", aslist=True))
+    for op in ("setv", "set1", "fill"):
+        out.append(dict(base, op=op, state="array", inputs=True, vvec=(op == "setv")))
     for op in ("zeros_like", "ones_like", "add", "eq", "items"):
         out.append(dict(base, op=op, state="array"))
     out.append(dict(base, op="add", state="scalar"))
